@@ -10,9 +10,9 @@ MANIFEST = dict(
     design='6/C10')
 
 PROPS = ["Props.C10.C10_metrics_totals_exact", "Props.C10.C10_monitor_totals_exact", "Props.C10.C10_counters_exact_always",
-         "Props.C10.C10_max_load_compare_store_refuted", "Props.C10.C10_min_load_compare_store_refuted",
+         "Props.C10.C10_max_load_compare_store_refuted", "Props.C10.C10_min_load_compare_store_refuted", "Props.C10.C10_max_single_attempt_refuted",
          "Props.C10.C10_results_sequential", "Props.C10.C10_footprint_race_free", "Props.C10.C10_common_lock_orders"]
-INST = ["Inst_C10.metrics_progs_ok", "Inst_C10.monitor_progs_ok", "Inst_C10.max_update_is_cas_loop", "Inst_C10.min_update_is_cas_loop",
+INST = ["Inst_C10.metrics_progs_ok", "Inst_C10.monitor_progs_ok", "Inst_C10.max_update_is_rmw_loop", "Inst_C10.min_update_is_rmw_loop",
         "Inst_C10.tokenization_contributes", "Inst_C10.parse_contributes", "Inst_C10.globals_ok"]
 # which public operations of the mix touch the state of a package (to aim the race-detector search at a broken table entry)
 PKG_OPS = {"pkg/config": ["config"], "pkg/errors": ["suggest", "parse"], "pkg/sql/ast": ["span", "parse", "extract"], "pkg/metrics": ["metrics", "tokenize", "parse"],
